@@ -10,6 +10,7 @@ returns a program or errors) is C11's model; the runtime part (no panic in libra
 observed by the harness in child processes.
 -/
 import ThriftVerif.Compile.RepairedProofs
+import ThriftVerif.Compile.ConstTotalLift
 
 namespace ThriftVerif.Properties.C08
 open ThriftVerif.Compile
@@ -28,15 +29,30 @@ signatures + 2) + 4`: every `Link` call either descends into a strictly smaller 
 definition or flags a definition never flagged before —
 the linker terminates under every visit order: include cycles, typedef cycles (reported as
 errors by `findTypeCycles`), struct nesting and recursion, service inheritance (also cyclic).
-*Partial*: constants and default values are excluded (`TypesOnly`). With the repaired
-in-progress flags every constant cycle and every self-dependent default is cut by an error, but
-the proof for programs with constants still needs the invariant that the references stored in
-linked values only lead to constants that are completely linked (so that re-casting a stored
-value terminates); it is not done. The harness observes termination on such programs. -/
+*Partial*: constants and default values are excluded (`TypesOnly`); `compile_total_plain_values`
+below covers programs with constants and defaults (without an explicit bound). -/
 theorem compile_total_partial {pre : Bool} {o : Orders} {src : Program} {p : GProg}
     (hg : gather src = some p) (ht : TypesOnly p) :
     ∀ fuel, linkBound p ≤ fuel → compileWith pre fuel o src ≠ .fuel :=
   compileWith_total_typesOnly hg ht
+
+/-- **Totality with constants (partial): programs whose constant values and default values are
+plain** — scalars, references to constants and enum items, list literals; no map or struct
+literal. For every visit order the compiler answers (a module or an error) with some fuel, and
+with every larger fuel. Inside this class: constants defined through other constants in chains
+and cycles of any length and across modules, constants cast to other types, struct types whose
+field defaults refer to constants — i.e. all of D4, D6 and D74. The proof is a lexicographic
+induction (definitions not yet entered, constants not being linked or cast, size of the
+argument) over the linker's mutual block from *every* state whose stored values have no struct
+node (`clauses_all`), lifted through services, modules and the walk. No bound is computed.
+*Partial*: map and struct literals (`{…}`) in constants or defaults are excluded — with them a
+missing struct field is completed from the stored default of that field, a value that is not a
+part of the literal being linked; bounding that needs an invariant on stored struct values that
+is not proved. D40's class (`struct S {1: optional S f = {}}`) is covered by its witness only. -/
+theorem compile_total_plain_values {pre : Bool} {o : Orders} {src : Program} {p : GProg}
+    (hg : gather src = some p) (hp : PlainValues p) :
+    ∃ fuel, ∀ g, fuel ≤ g → compileWith pre g o src ≠ .fuel :=
+  compileWith_total_plainValues hg hp
 
 /-- **Regression witnesses (D4, D6, D40, D5, D74 — repaired): the former non-terminating inputs end
 in an error.** On `const i32 a = b  const i32 b = a`, `const list<i32> c = c` (and the same
@@ -73,5 +89,22 @@ example : (gather typedefCycle).map (fun p => (decide (TypesOnly p), linkBound p
 example : (match compile 48 [] typedefCycle with | .err => true | _ => false) = true := by decide +kernel
 example : (gather includeLoop).map (fun p => (decide (TypesOnly p), linkBound p)) = some (true, 130) := by decide +kernel
 example : (compile 130 [] includeLoop).isOk = true := by decide +kernel
+
+/-! Non-vacuity of `compile_total_plain_values`: the witnesses of D4, D6 (list) and D74 are in the
+class (and are rejected); so is an accepted program with a chain of constants, a cast and a
+default that refers to a constant. -/
+def constChain : Program := oneFileProg true [
+  .typedef (nm "N") (.base 0 .i64),
+  .const (nm "a") (.base 0 .i32) (.int 7),
+  .const (nm "b") (.ref (nm "N")) (.uref (nm "a")),
+  .const (nm "c") (.list 0 (.ref (nm "N"))) (.list [.uref (nm "a"), .uref (nm "b"), .int 1]),
+  .struct .struct (nm "S") [⟨some 1, nm "f", .optional, .base 1 .i64, some (.uref (nm "b"))⟩]]
+
+example : (gather progD4).map (fun p => decide (PlainValues p)) = some true := by decide +kernel
+example : (gather progD6list).map (fun p => decide (PlainValues p)) = some true := by decide +kernel
+example : (gather progD74).map (fun p => decide (PlainValues p)) = some true := by decide +kernel
+example : (gather constChain).map (fun p => decide (PlainValues p)) = some true := by decide +kernel
+example : (compile 40 [] constChain).isOk = true := by decide +kernel
+example : (gather progD40).map (fun p => decide (PlainValues p)) = some false := by decide +kernel
 
 end ThriftVerif.Properties.C08
